@@ -160,7 +160,7 @@ VERIF_TARGET(c04_mutated_delivery, init_delivery, 24, 160,
         // --- deliveries
         if (announce_header) {
             BlockValidationState hs;
-            std::vector<CBlockHeader> hv{B->GetBlockHeader()};
+            std::vector<CBlockHeader> hv; hv.push_back(static_cast<const CBlockHeader&>(*B));
             bool ok = sim.chainman().ProcessNewBlockHeaders(hv, /*min_pow_checked=*/true, hs);
             VCHECK(ok, "c04.gen-selftest", "genuine header refused", StateStr(hs));
             st.cls("header-announced-first");
